@@ -37,6 +37,26 @@ checks = {
    technique="stateless model checking of networks of real handlers with per-node clock offsets and early-timer deviations; monitors on every released partial and every database write",
    text="Networks of 3-5 real handlers where up to t-1 members run fast by up to a period minus one second; timers may fire early relative to parked goroutines (a stall), nodes start level / behind their clock, one node is stopped and restarted or partitioned; plus the V+adversary harness where t-1 members send partials for the current, next and later rounds at every moment. All schedules within the deviation bound. Oracles: every partial an honest node releases carries a round whose time has come on that node's clock; partials more than one round ahead of the receiver's clock are refused; with fewer than t fast members no honest node stores a round before its time.",
    note="A partial that is created early but never leaves the node (seen once, on a stopping node reading its closed tick channel) is reported in the outcome, not as a violation: the property speaks of release. Stall = early timer deviation; clock skew = constant offset."),
+ "C05": dict(engine=E1, category="model_checking", design="3/C05",
+   technique="stateless model checking (delay-bounded) of networks of real handlers under scripted fault sequences followed by a healed horizon; bounded-liveness oracle at the end of every explored execution",
+   text="Networks of 3-4 real handlers under the controlled scheduler with every fault script of a fixed menu (partitions of 1-6 rounds, one-directional link cuts, stop/restart, loss of quorum by stops or by partitions, staggered recoveries; thorough adds repeated faults and a full-network stop) followed by a healed period; all schedules within the deviation bound (and per-partial drops as explorer choices in one job). Every explored execution must END with every running node's head at the current round of its clock, its store having advanced one round at a time, and every restarted node having had a partial accepted by a peer after its restart: no explored prefix leaves the network wedged. RPCs take 10 ms of virtual time so that the default schedule is the realistic one (ticks are handled before the partials of that tick arrive).",
+   note="Bounded liveness only: 'eventually' = by the end of the healed horizon under default timing; unbounded fairness-based liveness is not decided (DESIGN.md section 6). Sync-renewal after a stalling peer is covered by C10's harness."),
+ "C10": dict(engine=E1, category="model_checking", design="3/C10",
+   technique="stateless model checking of the real SyncManager against every multiset of scripted peers in every contact order; exhaustive enumeration of store corruption patterns for check/repair",
+   text="c10-sync: the real SyncManager (Run loop, Sync, tryNode) on the real participant store stack; peers scripted per identity from 15 behaviours (honest-ahead, behind, refusing, stalling, closing early, bad/empty signature at position j, skipped/repeated/regressing rounds, foreign beacon id, valid beacons with a gap, beacons of another chain); all multisets of <=2 (quick, plus all triples containing an honest peer) / <=3 (thorough) peers x EVERY contact order (rand.Perm is an explorer choice enumerated at no cost) x heights {0,2} x targets {head+1, head+3, follow}, chained and unchained, schedules within the bound. Safety: every database write reference-verifies against the pinned key, is the chain's own beacon and is head+1. Convergence: with an honest peer ahead and fail-fast bad peers the goal is reached within ONE sync call; with stalling peers some explored order reaches it and a fresh attempt is made after the 2-period expiry. c10-check: for every corruption pattern of a 5-round store (each round intact / deleted / signature altered / previous link broken; 32-1024 patterns per back-end and scheme) the real CheckPastBeacons reports exactly the rounds that cannot be read back or do not reference-verify, and CorrectPastBeacons (bad peers first, honest last) leaves a store that checks clean and holds the chain's own beacons.",
+   note="Follow mode through the control API (StartFollowChain: hash pinning, retry loop) is not yet covered by this check. 'Eventually' under the code's random peer order is decided existentially over all orders."),
+ "C16": dict(engine=E2, category="exploration", design="3/C16",
+   technique="exhaustive enumeration of the cross product of a boundary lattice (periods x genesis x instants x rounds) against a math/big reference",
+   text="Pure functions: the full cross product of 142 periods (1..60 s, every 2^k and 2^k+-1 up to 2^32-1), 9 genesis values, every second of the first 4 periods plus the instants around k*period for k in {2^j, 2^j+-1} up to 2^50 s, and 240 round numbers (0..64, 2^k, 2^k+-1 up to 2^64-1, the guard threshold and the largest schedulable round with their neighbours) is enumerated (2.1 million evaluations quick), and every answer of CurrentRound / NextRound / TimeOfRound is compared with an arbitrary-precision reference: unique bracketing round, exact next time, strict monotonicity, error value for every round whose true time is beyond the ceiling.",
+   note="Exhaustive over the lattice, not over all 2^64 inputs; refusing a schedulable round (conservative guard) is allowed."),
+ "C17": dict(engine=E2, category="exploration", design="3/C17",
+   technique="exhaustive shape enumeration (scheme x size x optional fields x perturbed field x encoding path x node order) of hash comparisons",
+   text="For all 5 schemes, groups of 1..4 (thorough 6) nodes, 3 beacon ids, explicit and derived genesis seed: equal parameters give equal chain hashes through the group file, the chain-info protobuf, the group protobuf and JSON, and on repeated calls; every single-field perturbation (period +-1 s, genesis +-1, seed bit / length, id, distributed key) changes it; membership changes do not; the empty id and the id default agree; JSON whose fields were altered under an unchanged chain_hash is rejected; the group hash is invariant under all n! listing orders and changes with threshold, genesis and transition time, id, each member key and index and each public coefficient.",
+   note="Key material random per run; shapes exhaustive."),
+ "C20": dict(engine=E2, category="exploration", design="3/C20",
+   technique="exhaustive shape enumeration of encode/decode round trips through every path, with field-by-field comparison by reflection",
+   text="All schemes x groups of 1..6 (thorough 10) nodes x all 32 subsets of the optional fields through the group file and the protobuf wire form; key pairs, shares and groups through the real file store including a shorter value saved over a longer one; chain info with the deterministic keys k*G (k<=48) through JSON and protobuf; DKG database records in all 12 statuses x 16 combinations of final group / share / participant lists / acceptors through TOML and through the real bolt DKG store (SaveCurrent/GetCurrent, SaveFinished/GetFinished), compared field by field by reflection over DBState; beacons with byte strings of length 0/1/48/96 through JSON and the wire form; thresholds {0, min-1, n+1, 2^30} and unknown or empty scheme names must be rejected by both the TOML and the protobuf decoder.",
+   note="Equality = the type's Equal plus equal hash plus the scalar fields Equal ignores."),
 }
 
 na_default = "check not built yet in this session (work in progress; see DESIGN.md section 3 for the planned model-checking design)"
